@@ -421,7 +421,7 @@ def known_class(cls):
 
 def run(ctx):
     quick = ctx.tier == "quick"
-    n_surf, n_sd, n_poly, n_vol = (330, 50, 60, 110) if quick else (4500, 700, 700, 1500)
+    n_surf, n_sd, n_poly, n_vol = (330, 50, 60, 110) if quick else (7000, 1000, 1000, 2200)
     max_faces = 260 if quick else 500
     ctx.rule = ("surfaces from 18 seed kinds (triangle/quad/polygon faces, disks, annuli, tori, closed polyhedra, holes, "
                 "two components; renumbered, rotated, shuffled) with 0-4 editor operations in one block (at most 5 levels "
